@@ -160,6 +160,38 @@ mut("C04", "error-folds-to-false", ("internal/eval/fold.go", '''		if err == nil 
 			return ast.NodeValue{Value: types.False}
 		}'''))
 
+# ---- C05
+mut("C05", "clonesub-first-only", ("x/exp/batch/batch.go", "if vv, delta := cloneSub(vv, k, v); delta {", "if vv, delta := cloneSub(vv, k, v); delta && newMap == nil {"))
+mut("C05", "no-state-restore", ("x/exp/batch/batch.go", '''	// restore previous state
+	*be = prevState
+	return nil''', '''	// restore previous state
+	be.Variables = prevState.Variables
+	return nil'''))
+mut("C05", "callback-error-ignored", ("x/exp/batch/batch.go", '''		if err := doBatch(ctx, be); err != nil {
+			return err
+		}''', '''		if err := doBatch(ctx, be); err != nil && ctx.Err() != nil {
+			return err
+		}'''))
+mut("C05", "set-substitution-first-only", ("x/exp/batch/batch.go", '''		for vv := range t.All() {
+			vv, _ = cloneSub(vv, k, v)
+			newSlice = append(newSlice, vv)
+		}''', '''		done := false
+		for vv := range t.All() {
+			if !done {
+				var d bool
+				vv, d = cloneSub(vv, k, v)
+				done = d
+			}
+			newSlice = append(newSlice, vv)
+		}'''))
+mut("C05", "ctx-checked-only-at-top", ("x/exp/batch/batch.go", '''func doBatch(ctx context.Context, be *batchEvaler) error {
+	if err := ctx.Err(); err != nil {
+		return err
+	}''', '''func doBatch(ctx context.Context, be *batchEvaler) error {
+	if err := ctx.Err(); err != nil && len(be.Variables) > 0 {
+		return err
+	}'''))
+
 # ---- C06
 mut("C06", "and-false-keeps-right", ("internal/eval/partial.go", '''	case isFalse(left):
 		return ast.NodeValue{Value: types.False}, nil
